@@ -57,9 +57,10 @@ type RMessage struct {
 type Conn struct {
 	mu sync.Mutex
 
-	Usernames []string
-	Password  []byte
-	Prefix    string // prefix for deterministic IDs (per user)
+	Usernames  []string
+	Password   []byte
+	Prefix     string // prefix for deterministic IDs (per user)
+	NumericIDs bool   // message IDs that read as numbers
 
 	// Personality.
 	MoveRemovesSource bool // value returned by MoveMessages
@@ -146,6 +147,10 @@ func (c *Conn) NewMessageID() imap.MessageID {
 	c.mu.Lock()
 	defer c.mu.Unlock()
 	c.nextMsg++
+	if c.NumericIDs {
+		// a remote whose message IDs read as numbers (with leading zeros): they are strings
+		return imap.MessageID(fmt.Sprintf("%06d", c.nextMsg))
+	}
 	return imap.MessageID(fmt.Sprintf("%sm%d", c.Prefix, c.nextMsg))
 }
 
